@@ -111,6 +111,11 @@ class Normalizer:
             kind = self.eft.get(a[1])
             if kind is not None and len(a) == 4:
                 return self._eft(kind, a[2], a[3])
+            if self.opcomm and len(a) == 4 and (a[1].startswith("op:add:") or a[1].startswith("op:mul:")):
+                # TwoFloat + and * with either operand order (x+f == f+x, x*f == f*x, a+b == b+a are
+                # proved bit-exact by C10; a*b vs b*a differs by at most one ulp of the low word)
+                x, y = self._sorted2(a[2], a[3])
+                return mk("call", "opc:" + a[1].split(":")[1], x, y)
             return mk(*a)
         if tg == "agg":
             # negation of both words of a TwoFloat aggregate stays explicit (word-wise)
